@@ -29,6 +29,15 @@ class Return(Exception):
         self.v = v
 
 
+class Break(Exception):
+    def __init__(self, v=()):
+        self.v = v
+
+
+class Continue(Exception):
+    pass
+
+
 class OpVal:
     """a value of the TextSelectionOperator enum: variant + field dict"""
 
@@ -163,7 +172,15 @@ def match_pat(p, v, binds):
         if name in ("Ok",):
             return isinstance(v, tuple) and v[0] == "ok" and match_pat(p["elems"][0], v[1], binds)
         if name in ("Err",):
-            return isinstance(v, tuple) and v[0] == "err"
+            if not (isinstance(v, tuple) and v and v[0] == "err"):
+                return False
+            sub = p["elems"][0] if p.get("elems") else None
+            if sub is not None and sub.get("p") not in ("wild", "rest", None):
+                try:
+                    return match_pat(sub, v[1], binds)
+                except Unknown:
+                    return True  # opaque error payloads are not modelled
+            return True
         if isinstance(v, EnumVal):
             if v.name != name:
                 return False
@@ -412,6 +429,8 @@ class Evaluator:
         ty_ = e["ty"]["s"].replace(" ", "")
         if ty_ in ("f64", "f32") and isinstance(v, (int, float)) and not isinstance(v, bool):
             return float(v)
+        if ty_.startswith("*const") or ty_.startswith("*mut"):
+            return v  # the address of a reference: identity of the referent
         if isinstance(v, bool) or not isinstance(v, int):
             raise Unknown("cast of non-int")
         if ty_ in ("usize", "u32", "u64", "u16", "u8"):
@@ -433,6 +452,8 @@ class Evaluator:
         recv = self.eval(e["recv"], env)
         if isinstance(recv, Interval) and m in ("begin", "end") and not e["args"]:
             return recv[m]
+        if m in ("is_ok", "is_err") and isinstance(recv, tuple) and recv and recv[0] in ("ok", "err"):
+            return (recv[0] == "ok") == (m == "is_ok")
         if m == "is_none" and (recv is None or is_some(recv)):
             return recv is None
         if m == "is_some" and (recv is None or is_some(recv)):
@@ -467,6 +488,12 @@ class Evaluator:
                 return recv
         if m == "abs" and isinstance(recv, int) and not isinstance(recv, bool):
             return SInt(abs(int(recv)))
+        if m == "unsigned_abs" and isinstance(recv, int) and not isinstance(recv, bool):
+            return abs(int(recv))
+        if m == "saturating_sub" and len(e["args"]) == 1 and isinstance(recv, int) and not isinstance(recv, bool):
+            o_ = self.eval(e["args"][0], env)
+            if isinstance(o_, int) and not isinstance(o_, bool):
+                return max(0, int(recv) - int(o_))
         if isinstance(recv, StructVal) and not e["args"] and m in recv:
             return recv[m]  # trivial getter
         raise Unknown("method %s on %s (line %s)" % (m, type(recv).__name__, e.get("l")))
@@ -554,19 +581,86 @@ class Evaluator:
         if l.get("k") == "path" and len(l["path"]) == 1 and l["path"][0] in env:
             env["__assign__"](l["path"][0], self.eval(e["right"], env))
             return ()
+        if l.get("k") == "field":
+            b = self.eval(l["base"], env)
+            if isinstance(b, dict) and l["member"] in b:
+                b[l["member"]] = self.eval(e["right"], env)
+                return ()
         raise Unknown("assignment target")
+
+    def e_loop(self, e, env):
+        n = 0
+        while True:
+            n += 1
+            if n > 10000:
+                raise Unknown("loop bound")
+            try:
+                self.block(e["body"], dict(env), env)
+            except Break as b:
+                return b.v
+            except Continue:
+                continue
+
+    def e_while(self, e, env):
+        n = 0
+        while True:
+            n += 1
+            if n > 10000:
+                raise Unknown("loop bound")
+            if not self._bool(self.eval(e["cond"], env)):
+                return ()
+            try:
+                self.block(e["body"], dict(env), env)
+            except Break:
+                return ()
+            except Continue:
+                continue
+
+    def e_break(self, e, env):
+        raise Break(self.eval(e["e"], env) if e.get("e") else ())
+
+    def e_continue(self, e, env):
+        raise Continue()
+
+    def e_range(self, e, env):
+        a = self.eval(e["start"], env) if e.get("start") else None
+        b = self.eval(e["end"], env) if e.get("end") else None
+        return ("range", a, b, bool(e.get("inclusive")))
+
+    def e_index(self, e, env):
+        b = self.eval(e["base"], env)
+        i = self.eval(e["index"], env)
+        if isinstance(b, list):
+            if isinstance(i, tuple) and i and i[0] == "range":
+                lo = 0 if i[1] is None else i[1]
+                hi = len(b) if i[2] is None else (i[2] + 1 if i[3] else i[2])
+                if lo > hi or hi > len(b) or lo < 0:
+                    raise Panic("slice-index-out-of-range", e.get("l"))
+                return b[lo:hi]
+            if isinstance(i, int) and not isinstance(i, bool):
+                if i < 0 or i >= len(b):
+                    raise Panic("index-out-of-bounds", e.get("l"))
+                return b[i]
+        raise Unknown("index expression")
 
     def e_for(self, e, env):
         seq = self.eval(e["iter"], env)
+        if isinstance(seq, tuple) and seq and seq[0] == "range" and isinstance(seq[1], int) and isinstance(seq[2], int):
+            seq = list(range(seq[1], seq[2] + (1 if seq[3] else 0)))
         if not isinstance(seq, list):
             raise Unknown("for over non-sequence")
-        for x in seq:
+        for x in list(seq):
             b = {}
             if not match_pat(e["pat"], x, b):
                 raise Unknown("for pattern")
             env2 = dict(env)
             env2.update(b)
-            self.block(e["body"], env2, env)
+            try:
+                self.block(e["body"], env2, env)
+            except Break:
+                break
+            except Continue:
+                continue
         return ()
 
     def block(self, b, env, outer):
